@@ -41,6 +41,28 @@ pub fn discover_local_fingerprints(root: &Path) -> Result<FpMap, Box<dyn std::er
     Ok(out)
 }
 
+/// Like [`discover_local_fingerprints`], for callers that act on what is NOT in
+/// the map: a file that exists but cannot be read is an error here, not an
+/// absence. `bisync` took such a file for deleted and removed the other side's
+/// copy; `hub-sync` reported a complete push without it. A file that vanished
+/// between the walk and the read is still skipped (it is gone).
+pub fn discover_local_fingerprints_strict(
+    root: &Path,
+) -> Result<FpMap, Box<dyn std::error::Error>> {
+    let mut out = FpMap::new();
+    for rel in discover_local_files(root)? {
+        let full = root.join(&rel);
+        match fingerprint_path(&full) {
+            Ok(fp) => {
+                out.insert(rel, fp);
+            }
+            Err(e) if e.kind() == std::io::ErrorKind::NotFound => {}
+            Err(e) => return Err(format!("cannot read {}: {e}", full.display()).into()),
+        }
+    }
+    Ok(out)
+}
+
 /// A std file mtime as whole epoch seconds (the quick-check granularity).
 fn mtime_secs(meta: &std::fs::Metadata) -> i64 {
     meta.modified()
